@@ -36,6 +36,12 @@ func verifConservationOracle(sim *verifledger.Sim, tx *common.VersionedTransacti
 		case i.Deposit != nil:
 			in.Add(in, verifgen.UnitsOf(i.Deposit.Amount))
 			special++
+			// the deposited external asset is the one registered under the transaction's asset id (once registered)
+			if info, _, err := sim.Store.ReadAssetWithBalance(tx.Asset); err == nil && info != nil &&
+				(info.Chain != i.Deposit.Chain || info.AssetKey != i.Deposit.AssetKey) {
+				return fmt.Sprintf("the deposit is of external asset (%s, %s) but is credited as %s, registered as (%s, %s)",
+					i.Deposit.Chain, i.Deposit.AssetKey, tx.Asset, info.Chain, info.AssetKey)
+			}
 		default:
 			u, err := sim.Store.ReadUTXOLock(i.Hash, i.Index)
 			if err != nil {
@@ -111,7 +117,7 @@ func TestVerif_C01(t *testing.T) {
 			a := assets[rng.Intn(len(assets))]
 			units := big.NewInt(int64(1 + rng.Intn(3_0000_0000)))
 			tx, specs = w.deposit(a, units)
-			switch rng.Intn(6) {
+			switch rng.Intn(8) {
 			case 0: // output differs from deposit amount by one unit
 				pert = "deposit-output+1"
 				tx.Outputs[0].Amount = verifgen.Units(new(big.Int).Add(units, big.NewInt(1)))
@@ -124,6 +130,17 @@ func TestVerif_C01(t *testing.T) {
 				pert = "deposit-extra-zero-output"
 				sp := w.spec(common.Zero, 2)
 				verifgen.AddOutputs(&tx.Transaction, []verifgen.OutSpec{sp})
+			case 3: // another token of the same chain, credited as this (already registered) asset
+				pert = "deposit-of-another-asset-key-on-the-same-chain"
+				tx.Inputs[0].Deposit.AssetKey = fmt.Sprintf("0x%040x", rng.Int63())
+			case 4: // the same key on another chain
+				pert = "deposit-of-the-same-asset-key-on-another-chain"
+				other := assets[rng.Intn(len(assets))]
+				if other.chain == tx.Inputs[0].Deposit.Chain {
+					tx.Inputs[0].Deposit.Chain = crypto.Sha256Hash([]byte("verif-other-chain"))
+				} else {
+					tx.Inputs[0].Deposit.Chain = other.chain
+				}
 			}
 			if pert != "none" {
 				verifResignDeposit(tx, &sim.Net.Custodian)
